@@ -154,7 +154,7 @@ def run_group(g, reach=False, keep=False):
             defs.append("-DVERIF_REACH")
         if g.lift:
             lifted = os.path.join(d, "lifted.c")
-            tool = "lift_i386.py" if "i386" in g.lift[0] else "lift_riscv.py" if "riscv" in g.lift[0] else "lift_arm64.py" if "armv8a" in g.lift[0] else "lift_arm32.py" if "-armv" in g.lift[0] else "lift_xtensa.py" if "xtensa" in g.lift[0] else "lift_m68k.py" if "m68k" in g.lift[0] else "lift_x86_64.py"
+            tool = "lift_i386.py" if "i386" in g.lift[0] else "lift_riscv.py" if "riscv" in g.lift[0] else "lift_arm64.py" if "armv8a" in g.lift[0] else "lift_arm32.py" if "-armv" in g.lift[0] else "lift_xtensa.py" if "xtensa" in g.lift[0] else "lift_m68k.py" if "m68k" in g.lift[0] else "lift_avr.py" if "avr5" in g.lift[0] else "lift_x86_64.py"
             cmd = ["python3", os.path.join(VERIF, "tools", tool), os.path.join(REPO, g.lift[0]), lifted] + list(g.lift[1]) + \
                   ["--cpp=" + x for x in CONFIGS[g.cfg]] + ["--cpp=-D" + x for x in g.defs if x.startswith("ASCON_")]
             rc, out, err, dt = _run(cmd, d, 120, logf)
